@@ -18,13 +18,14 @@ RULE = (
     "update id, network key + sequence + frame counter, trust-centre link key well-known or not, hashed link key supplied or "
     "absent, 0..N link keys with distinct partners, 0..M children with or without known NWK address, trust-centre address "
     "known or unknown, node IEEE equal to / different from / unknown vs the NCP's) x NCP capabilities (NV3 EUI64 token, "
-    "manufacturing token burnable / burnt / absent, token commands implemented or not). Non-trivial = at least one link "
+    "manufacturing token burnable / burnt / absent, token commands implemented or not; NCP factory-fresh or still holding an "
+    "earlier network: other keys, non-zero frame counters, link keys, children, stack up or down). Non-trivial = at least one link "
     "key or one child or an EUI64 rewrite; distinct by plan."
 )
 ASSUMPTIONS = [
     "vlib/netsim.py semantics: initial security state becomes current on formNetwork; written frame counters are what the "
     "key records report; a forming coordinator is its own trust centre; TCLK partner is reported as FF..FF; clearKeyTable and "
-    "tokenFactoryReset clear what their names say; a reset keeps the stored network but the stack is down until networkInit",
+    "tokenFactoryReset clear what their names say; leaveNetwork also erases the child table but keeps frame counters and link keys; a reset keeps the stored network but the stack is down until networkInit",
     "ControllerApplication is constructed with the zigpy.util.Requests shim",
     "frame counter is compared for versions >= 5 and children for versions >= 9 (the versions whose handlers can store them)",
     "os.urandom in write_network_info (random hashed TCLK) is compared against what the simulator received",
@@ -51,6 +52,21 @@ async def scenario(loop, plan, out):
     if cap.get("nv3_custom") and sim.nv3 is not None:
         # the NCP already carries a custom EUI64 from an earlier restore
         sim.nv3[0x0000E12A] = bytes.fromhex(cap["nv3_custom"])
+    prior = cap.get("prior")
+    if prior:
+        # the NCP is not factory-fresh: it still holds an earlier network with its own keys, counters, link keys, children
+        import bellows.types as bt
+
+        sim.network = bt.EmberNetworkParameters(extendedPanId=bt.ExtendedPanId.deserialize(bytes.fromhex("f1f2f3f4f5f6f7f8"))[0], panId=0x7A7A,
+                                                radioTxPower=8, radioChannel=25, joinMethod=0, nwkManagerId=0, nwkUpdateId=9, channels=1 << 25)
+        sim.current_sec = dict(hashed=v > 4, preconfiguredKey=bytes(range(0x70, 0x80)), networkKey=bytes(range(0x90, 0xA0)), seq=77,
+                               tc_eui64=sim.eui64(), given_tc=None)
+        sim.nwk_fc, sim.aps_fc = prior["fc"], prior["aps_fc"]
+        for k in range(min(prior["nkeys"], len(sim.key_table))):
+            sim.key_table[len(sim.key_table) - 1 - k] = (bytes([0xE0 + k] * 8), bytes([0xB0 + k] * 16))
+        for k in range(prior["nchildren"]):
+            sim.children[k] = (bytes([0xD0 + k] * 8), 0x5000 + k, 4)
+        sim.stack_up = prior["up"]
     ezsp = e.EZSP({"path": "/dev/null", "baudrate": 115200, "flow_control": None})
     sim.attach(ezsp)
     ezsp._switch_protocol_version(v)
@@ -189,6 +205,8 @@ def check(plan) -> Result:
         r.cls("eui64-rewritten")
     if plan["cap"].get("nv3_custom"):
         r.cls("ncp-already-had-custom-eui64")
+    if plan["cap"].get("prior"):
+        r.cls("ncp-held-an-earlier-network")
     if ni["link_keys"]:
         r.cls("link-keys")
     if ni["children"]:
@@ -231,6 +249,9 @@ def plans(draw, versions=tuple(range(4, 15))):
     }
     cap = {"nv3": draw(st.booleans()), "mfg": draw(st.sampled_from(["burnable", "burnt", "absent"])), "token_cmds": draw(st.booleans()),
            "key_table": ktab, "nv3_custom": draw(st.sampled_from([None, None, "c1c2c3c4c5c6c7c8", "d1d2d3d4d5d6d7d8"]))}
+    if draw(st.booleans()):
+        cap["prior"] = {"fc": draw(st.sampled_from([0x12345, 1, 2**32 - 2])), "aps_fc": draw(st.sampled_from([0, 0x777])),
+                        "nkeys": draw(st.integers(0, 3)), "nchildren": draw(st.integers(0, 3)), "up": draw(st.booleans())}
     return {"v": v, "net": net, "cap": cap, "node_ieee": draw(st.sampled_from(["same", "other", "other", "unknown"])),
             "allow_burn": draw(st.booleans())}
 
